@@ -88,6 +88,8 @@ def run(tier, seed, replay=None):
         if not prob and o and o["logged"] and not o["record"].startswith(b"%d/%d:" % (uid, EUID)):
             rep.assumptions.append("harness: record shows ids %r, wanted %d/%d" % (o["record"][:30], uid, EUID))
             continue
+        if prob and len(rep.violations) >= 15:
+            continue                         # enough confirmed counterexamples; each confirmation costs a fresh run
         if prob:
             o2 = filters.run_cases(b, [(lab, chain, uid, euid, tty)], b["root"] + "/confirm")
             if not filters.judge(o2.get(lab), expect):
